@@ -56,6 +56,10 @@ def scenario(rng, k):
                             p_fail=0.45, jobs=rng.choice([None, None, 2]))
             if rng.random() < 0.25:
                 st["crash_at"] = rng.randrange(8, 70)
+            if rng.random() < 0.2:
+                # started from inside an outer task (or from a shell that exported them): COND_* of somebody else
+                st["env"] = {"COND_OUT": "@root/cond-out/" + rng.choice(["a.task.100", "pk/b.task.101", "d.task.100", "outer.task"]),
+                             "COND_DEPS": "@root/cond-out/a.task.100", "COND_NAME": "outer", "COND_SLOT": "0"}
             elif "-j" not in st["argv"] and rng.random() < 0.4:
                 # sequential (teed) run whose tasks leave a helper behind that prints after the shell has exited: the index
                 # is watched while the command runs - nothing may change in a version directory once its row is there
